@@ -101,6 +101,16 @@ def corpusA(part, seed=0):
         for h in ("FFFFFFFFFFFFFFFF", "8000000000000000", "8D406B902015A678D4D220AA4BDA"):
             yield "hex2int", (h,)
             yield "bin2int", (format(int(h, 16), "0%db" % (4 * len(h))),)
+        # whole frames as bit strings: the demodulator (extra/rtlreader.py) hands complete 56- and 112-bit bit strings to
+        # bin2hex, the decoders hand complete frames to hex2bin (bin2int / hex2int beyond 63 bits: known finding, not here)
+        for nb in (57, 63, 64, 65, 88, 111, 112, 113):
+            for v in (0, (1 << nb) - 1, 1 << (nb - 1), (1 << (nb - 1)) - 1, int("A5" * 15, 16) & ((1 << nb) - 1), int("8D406B902015A678D4D220AA4BDA", 16) & ((1 << nb) - 1), 1):
+                s = format(v, "0%db" % nb)
+                yield "bin2hex", (s,)
+                if nb % 4 == 0:
+                    h = "%0*X" % (nb // 4, v)
+                    yield "hex2bin", (h,)
+                    yield "hex2bin", (h.lower(),)
         for nb in (13, 17, 24, 32, 48, 56):
             for v in (0, (1 << nb) - 1, 1 << (nb - 1), int("A5" * 7, 16) & ((1 << nb) - 1)):
                 s = format(v, "0%db" % nb)
